@@ -158,6 +158,12 @@ func genC03(g *Gen, tier string, w *bufio.Writer) {
 		{Kind: KVector, N: 2, Elem: &Ty{Kind: KList, N: 4, Elem: &Ty{Kind: KUint, N: 1}}},
 		{Kind: KContainer, Fields: []*Ty{{Kind: KList, N: 4, Elem: &Ty{Kind: KUint, N: 1}}, {Kind: KList, N: 4, Elem: &Ty{Kind: KUint, N: 1}}}},
 		{Kind: KContainer, Fields: []*Ty{{Kind: KUint, N: 1}, {Kind: KBitlist, N: 9}}},
+		// a dynamic field that cannot be empty (bitlist / union / container with a dynamic field)
+		// followed by one that can absorb the bytes the size check needs
+		{Kind: KContainer, Fields: []*Ty{{Kind: KBitlist, N: 9}, {Kind: KList, N: 4, Elem: &Ty{Kind: KUint, N: 1}}}},
+		{Kind: KContainer, Fields: []*Ty{{Kind: KUnion, HasNone: true, Fields: []*Ty{{Kind: KUint, N: 1}}}, {Kind: KList, N: 4, Elem: &Ty{Kind: KUint, N: 1}}}},
+		{Kind: KContainer, Fields: []*Ty{{Kind: KContainer, Fields: []*Ty{{Kind: KList, N: 4, Elem: &Ty{Kind: KUint, N: 1}}}}, {Kind: KList, N: 4, Elem: &Ty{Kind: KUint, N: 1}}}},
+		{Kind: KList, N: 4, Elem: &Ty{Kind: KUnion, HasNone: true, Fields: []*Ty{{Kind: KUint, N: 2}, {Kind: KList, N: 8, Elem: &Ty{Kind: KUint, N: 1}}}}},
 	}
 	words := []uint32{0, 1, 3, 4, 5, 7, 8, 9, 11, 12, 13, 16, 0xffffffff, 0x80000000}
 	for _, t := range offTypes {
